@@ -7,6 +7,18 @@ def _sc(E, s):
     return E.scalar('a', s.get('skind', 'float'))
 
 
+def _idx_last(x, v):
+    d = len(x.N)
+    base = [slice(None)] * (d - 1) + [v]
+    return tuple(base * 2) if x.is_ttm else tuple(base)
+
+
+def _idx_mixed(x):
+    d = len(x.N)
+    base = [0 if i % 2 == 0 else slice(None) for i in range(d)]
+    return tuple(base * 2) if x.is_ttm else tuple(base)
+
+
 def _idx_all_slices(x, first):
     d = len(x.N)
     if x.is_ttm:
@@ -44,6 +56,10 @@ OPS = {
     'sum_all': (['any'], lambda E, o, s: o[0].sum()),
     'sum_first': (['any'], lambda E, o, s: o[0].sum(0)),
     'sum_last': (['any'], lambda E, o, s: o[0].sum([len(o[0].N) - 1])),
+    'sum_middle': (['any'], lambda E, o, s: o[0].sum([len(o[0].N) // 2])),
+    'sum_two': (['any'], lambda E, o, s: o[0].sum([0, len(o[0].N) - 1])),
+    'getitem_int_last': (['any'], lambda E, o, s: o[0][_idx_last(o[0], 0)]),
+    'getitem_mixed': (['any'], lambda E, o, s: o[0][_idx_mixed(o[0])]),
     'to_ttm': (['tt'], lambda E, o, s: o[0].to_ttm()),
     't': (['ttm'], lambda E, o, s: o[0].t()),
     'conj': (['any'], lambda E, o, s: o[0].conj()),
